@@ -5,7 +5,9 @@
                  | 2  two-channel mode: client channel A and server channel B back to back
                  | c<hex> chunk | m[efgtd] call (Echo, FailedEcho, GetPlugins, Stream*, StreamDmxData*; * = streaming)
                  | k<q>R / k<q>F  the service completes request number q (reply "r" / failure "Error")
-                 | z jam (every later send fails) | q<N> set sequence number *)
+                 | z jam (every later send fails) | q<N> set sequence number
+                 | w<hex> bytes arrive without the poller running | p the peer closes its end
+                 | m[xu] GetDmx / GetUIDs with a reply object the caller reuses across calls *)
 let decode_tbl : (string, msg) Hashtbl.t = Hashtbl.create 16
 let req_tbl : (string, string) Hashtbl.t = Hashtbl.create 16
 let async = ref false
@@ -78,6 +80,8 @@ let call_of_code (code : string) : bool * n list * n list =
   | "f" -> (false, bytes_of_hex "4661696c65644563686f", bytes_of_hex "0a0178")
   | "t" -> (true, bytes_of_hex "53747265616d", bytes_of_hex "0a0178")
   | "g" -> (false, bytes_of_hex "476574506c7567696e73", [])                      (* GetPlugins *)
+  | "x" -> (false, bytes_of_hex "476574446d78", bytes_of_hex "0801")               (* GetDmx *)
+  | "u" -> (false, bytes_of_hex "47657455494473", bytes_of_hex "0801")             (* GetUIDs *)
   | "d" -> (true, bytes_of_hex "53747265616d446d7844617461", bytes_of_hex "0801120164")  (* StreamDmxData *)
   | _ -> failwith "bad call code"
 
@@ -90,6 +94,7 @@ let handle (p : string) : string =
   let a = new_chan (if two then no_methods else method_kind) in
   let b = new_chan method_kind in
   let jam = ref false in
+  let held = ref [] in
   let tag = ref "?" in
   let out = Buffer.create 256 in
   let idx = ref 0 in
@@ -146,6 +151,8 @@ let handle (p : string) : string =
          | [rq; rp] -> Hashtbl.replace req_tbl rq rp
          | _ -> failwith "bad Q")
       | 'z' -> jam := true
+      | 'p' -> jam := true                      (* the peer went away: every later write to it fails *)
+      | 'w' -> held := !held @ bytes_of_hex rest (* arrived, but the poller has not run yet *)
       | 'q' -> a.r <- { a.r with seq = n_of_string rest }
       | 'c' | 'm' | 'k' ->
         if two then begin
@@ -162,7 +169,7 @@ let handle (p : string) : string =
           emit2 eva evb
         end else begin
           let o = match tok.[0] with
-            | 'c' -> OpChunk (bytes_of_hex rest, not !jam)
+            | 'c' -> let b = !held @ bytes_of_hex rest in held := []; OpChunk (b, not !jam)
             | 'm' -> let (st, nm, rq) = call_of_code rest in OpCall (st, nm, rq, not !jam)
             | _ -> complete_op rest in
           let (e, _, _) = do_op a o true in
